@@ -95,6 +95,7 @@ def run_program(chk, da, prog, sources, want, optimize):
                                  "swv_reduction": any(q[0] == "swv" and q[4] is not None for q in nodes),
                                  "zero_length_axis": any(s == 0 for s in adv[0]),
                                  "reduce_below_root": any(q[0] == "reduce" for q in nodes[1:]),
+                                 "take_over_broadcast_to": any(q[0] == "take" and q[1][0] == "broadcast_to" for q in nodes),
                                  "unstable_chunks_below_root": _unstable(prog, sources),
                                  **({"call": progs.call_tag(prog, sources)} if prog[0] == "call" else {})})
     else:
